@@ -559,6 +559,38 @@ def run2(x):
 ''', [("run", [(0,), (1,)]), ("run2", [(" ab ",), (5,)])])
 
 
+# ---- helper ending in a with block that is left by return
+case('''
+import contextlib
+
+LOG = []
+
+def opened(tag):
+    LOG.append("open " + tag)
+    return contextlib.nullcontext(LOG)
+
+def _store(tag, data, sync):
+    with opened(tag) as f:
+        f.append(data)
+        if not sync:
+            return
+        f.append("flush")
+        f.append("fsync")
+
+def _fetch(tag, want):
+    with opened(tag) as f:
+        if want:
+            return len(f)
+        f.append("nothing")
+
+def run(sync):
+    LOG.clear()
+    _store("a", "payload", sync)
+    n = _fetch("b", sync)
+    return n, list(LOG)
+''', [("run", [(True,), (False,)])])
+
+
 def outcome(ns, fn, args):
     import copy
     try:
